@@ -29,4 +29,5 @@ for d in sorted(os.listdir(f"{root}/seeded")):
     json.dump(m,open(meta_p,"w"),indent=1)
     rows.append({"id":d,**res})
     print(d,res["exit"],classes,secs,flush=True)
+subprocess.run("cd /verif/sim && cargo build --offline --release >/dev/null 2>&1; cargo build --offline --profile relcheck >/dev/null 2>&1", shell=True)
 json.dump({"what":"seeded changes vs the quick check of the property they break","rows":rows,"detected":sum(1 for r in rows if r.get("detected")),"total":len(rows)},open(f"{root}/evidence/sensitivity.json","w"),indent=1)
